@@ -79,6 +79,8 @@ structure Syms where
   fixF4 : Bool := false
   /-- the code WITH fixes_proposed/C05-F2.diff (a pattern with only `_` arguments stays a function pattern) -/
   fixF2 : Bool := false
+  /-- the code WITH fixes_proposed/C05-F5.diff (blanks stripped with the brackets, empty words skipped) -/
+  fixF5 : Bool := false
   deriving Repr
 
 def varName (v : Sym) : Str := "var".toList ++ (toString v.idx).toList
@@ -164,6 +166,9 @@ def assemble (fixF2 : Bool) (elements : List (Tok Sym)) : Option (Tok Sym) :=
   | [e] => some e
   | _ => none                                       -- assert len(elements) == 1
 
+/-- the characters `parse_specification` strips from both ends: `strip(")(")`, with C05-F5 `strip(")( ")` -/
+def stripP (b : Bool) (c : Char) : Bool := c = ')' || c = '(' || (b && c = ' ')
+
 /-- the loop :245-253, with the recursive call for a parenthesised word abstracted as `rec`;
     `steps` bounds the number of iterations (each consumes at least one character) -/
 def parseWords (Sy : Syms) (rec : Str → Option (Tok Sym)) : Nat → Str → Nat → Option (List (Tok Sym))
@@ -172,6 +177,7 @@ def parseWords (Sy : Syms) (rec : Str → Option (Tok Sym)) : Nat → Str → Na
     if index < spec.length then
       let spec' := spec.drop index
       let wi := parseNextWord spec'
+      if Sy.fixF5 && wi.1.isEmpty then parseWords Sy rec steps spec' wi.2 else   -- C05-F5: `continue`
       let tok := if startsWith ['('] wi.1 then rec wi.1 else interpretWord Sy wi.1
       match tok with
       | none => none
@@ -185,7 +191,7 @@ def parseWords (Sy : Syms) (rec : Str → Option (Tok Sym)) : Nat → Str → Na
 def parseSpec (Sy : Syms) : Nat → Str → Option (Tok Sym)
   | 0, _ => none
   | fuel + 1, spec0 =>
-    let spec := stripChars (fun c => c = ')' || c = '(') (removeChar '\n' spec0)
+    let spec := stripChars (stripP Sy.fixF5) (removeChar '\n' spec0)
     match parseWords Sy (parseSpec Sy fuel) (spec.length + 1) spec 0 with
     | none => none
     | some elements => assemble Sy.fixF2 elements
